@@ -1,7 +1,10 @@
 // Free-running monitor for property C11 (thorough tier, run under -race): producers,
 // Flush and Wait callers and a real 1ms ticker run uncontrolled; a multiset monitor
 // checks that every added task reaches the callback exactly once (panicking batches
-// included) and that nothing is left after the final Wait.  Injected with -overlay.
+// included), that a batch reads the same at the end of a (sometimes slow) callback as at its
+// start, and that nothing is left after the final Wait.  A few rounds (VERIF_FREE_ROUNDS,
+// result in VERIF_FREE_OUT) also ride along with every quick run, without -race: they are
+// the only runs with the executor's own ticker (timex.NewTicker).  Injected with -overlay.
 package executors
 
 import (
@@ -13,6 +16,7 @@ import (
 	"time"
 
 	"github.com/zeromicro/go-zero/core/logx"
+	"github.com/zeromicro/go-zero/core/timex"
 )
 
 type vFreeResult struct {
@@ -23,33 +27,67 @@ type vFreeResult struct {
 	Dup     []int64 `json:"dup"`
 	Missing []int64 `json:"missing"`
 	Unknown []int64 `json:"unknown"`
+	Changed int     `json:"changed"` // batches that did not read the same at the end of their callback
 }
 
 func TestVerifC11Free(t *testing.T) {
-	outp := os.Getenv("VERIF_OUT")
+	outp := os.Getenv("VERIF_FREE_OUT")
+	nrounds := 40
+	if outp == "" {
+		if os.Getenv("VERIF_IN") != "" {
+			if data, err := os.ReadFile(os.Getenv("VERIF_IN")); err != nil || len(data) > 4 {
+				t.Skip("forced-schedule run without VERIF_FREE_OUT")
+			}
+		}
+		outp = os.Getenv("VERIF_OUT")
+	} else if s := os.Getenv("VERIF_FREE_ROUNDS"); s != "" {
+		json.Unmarshal([]byte(s), &nrounds)
+	}
 	if outp == "" {
 		t.Skip("VERIF_OUT not set")
 	}
 	logx.Disable()
+	timex.ClearFake()
+	per := 150
+	if nrounds < 40 {
+		per = 60
+	}
 	seed := int64(1)
 	if s := os.Getenv("VERIF_SEED"); s != "" {
 		json.Unmarshal([]byte(s), &seed)
 	}
 	var results []vFreeResult
-	for round := 0; round < 40; round++ {
+	for round := 0; round < nrounds; round++ {
 		rng := rand.New(rand.NewSource(seed*1000 + int64(round)))
 		kind := []string{"bulk", "chunk"}[round%2]
 		maxw := 1 + rng.Intn(4)
 		var mu sync.Mutex
 		seen := map[int64]int{}
+		changed := 0
+		var ncb int64
 		cb := func(tasks []any) {
 			mu.Lock()
 			bad := false
-			for _, x := range tasks {
-				id := x.(int64)
+			first := make([]int64, len(tasks))
+			for i, x := range tasks {
+				id, _ := x.(int64)
+				first[i] = id
 				seen[id]++
 				if id%37 == 0 {
 					bad = true
+				}
+			}
+			ncb++
+			slow := ncb%5 == 0
+			mu.Unlock()
+			if slow { // a slow sink: other goroutines add and flush meanwhile
+				time.Sleep(300 * time.Microsecond)
+			}
+			mu.Lock()
+			for i, x := range tasks {
+				if id, _ := x.(int64); id != first[i] {
+					changed++
+					break
 				}
 			}
 			mu.Unlock()
@@ -66,7 +104,7 @@ func TestVerifC11Free(t *testing.T) {
 			ce := NewChunkExecutor(cb, WithChunkBytes(maxw*3), WithFlushInterval(time.Millisecond))
 			add, flush, wait = func(id int64) { ce.Add(id, int(id%4)) }, ce.Flush, ce.Wait
 		}
-		const producers, per = 3, 150
+		const producers = 3
 		var wg sync.WaitGroup
 		for p := 0; p < producers; p++ {
 			wg.Add(1)
@@ -93,7 +131,8 @@ func TestVerifC11Free(t *testing.T) {
 		wait()
 		res := vFreeResult{Round: round, Kind: kind, Maxw: maxw, Added: producers * per}
 		mu.Lock()
-		for id := int64(1); id <= producers*per; id++ {
+		res.Changed = changed
+		for id := int64(1); id <= int64(producers*per); id++ {
 			switch n := seen[id]; {
 			case n == 0:
 				res.Missing = append(res.Missing, id)
@@ -102,7 +141,7 @@ func TestVerifC11Free(t *testing.T) {
 			}
 		}
 		for id := range seen {
-			if id < 1 || id > producers*per {
+			if id < 1 || id > int64(producers*per) {
 				res.Unknown = append(res.Unknown, id)
 			}
 		}
